@@ -416,7 +416,7 @@ def is_namedtuple_class(cls: type, /) -> bool:
     return (
         isinstance(cls, type)
         and issubclass(cls, tuple)
-        and isinstance(getattr(cls, '_fields', None), tuple)
+        and type(getattr(cls, '_fields', None)) is tuple  # exact tuple, same as the C++ implementation
         # pylint: disable-next=unidiomatic-typecheck
         and all(type(field) is str for field in cls._fields)  # type: ignore[attr-defined]
         and callable(getattr(cls, '_make', None))
